@@ -199,7 +199,7 @@ func runC17(c *core.Ctx) {
 			okk, w, hit := condMust(c, run, rc, func(in ssa.Instruction) bool {
 				u, ok := in.(*ssa.UnOp)
 				return (ok && u.Op.String() == "<-") || core.IsReturn(in)
-			}, core.InstrIs(core.CallsTo(wakeup)), []string{"F:(const(0) < len(*"})
+			}, core.InstrIs(core.CallsTo(wakeup)), []string{"T:(len(*) < const(1))"})
 			if okk {
 				a.ok(fname(run)+" wakes the released waiters", rc, "")
 			} else {
